@@ -11,7 +11,7 @@ import (
 func init() {
 	register(&Check{
 		ID: "C05", Level: "exploration", QuickSecs: 150, ThoroughSecs: 1500,
-		Rule:        "skeletons over {'a','b',#{},&{}} x {?,*,+,&,!} x seq/choice (arity<=3) up to N nodes (quick 5, thorough 6) under a rule-level action, plus one label+action decoration per node for N<=3 and a rule call variant; every #{} appends its id to a string value (shallow copy), to a Cloner list mutated IN PLACE and to globalStore; action and predicate blocks attempt the same mutations (two scripts: all blocks return normally / all blocks also return an error); every block snapshots state and globalStore. Inputs over {a,b} up to L=3, InitState on/off, 2 generation flag sets. Every snapshot and the final store are compared with the reference (immutable store threaded through the evaluation; failing expression = store unchanged; &/! always restore; block-local changes dropped; globalStore append-only). The pool shim additionally checks the pool discipline (no double Put, no non-empty map from Get). Non-trivial = a state change was followed by a failure of an enclosing expression (reference backtracked after a #{} ran).",
+		Rule:        "skeletons over {'a','b',#{},&{}} x {?,*,+,&,!} x seq/choice (arity<=3) up to N nodes (quick 5, thorough 6) under a rule-level action, plus one label+action decoration per node for N<=3 and a rule call variant; plus 18 left-recursive grammars (-support-left-recursion, with and without -optimize-parser; state blocks in the base alternative, in the operand and before the recursion; inputs up to length 4); every #{} appends its id to a string value (shallow copy), to a Cloner list mutated IN PLACE and to globalStore; action and predicate blocks attempt the same mutations (two scripts: all blocks return normally / all blocks also return an error); every block snapshots state and globalStore. Inputs over {a,b} up to L=3, InitState on/off, 2 generation flag sets. Every snapshot and the final store are compared with the reference (immutable store threaded through the evaluation; failing expression = store unchanged; &/! always restore; block-local changes dropped; globalStore append-only). The pool shim additionally checks the pool discipline (no double Put, no non-empty map from Get). Non-trivial = a state change was followed by a failure of an enclosing expression (reference backtracked after a #{} ran).",
 		Assumptions: []string{"E1 loader", "position/text seen by non-action blocks are C02's concern and are masked here"},
 		Run:         runC05,
 	})
@@ -63,6 +63,39 @@ func runC05(c *ShardCtx) {
 		runGrammar(c, g, fam)
 	}
 	idx := 0
+	// left-recursive rules (-support-left-recursion, with and without -optimize-parser): the
+	// discarded last growth attempt - usually a successful parse of the base alternative - must
+	// leave the store as it was; state blocks in the base, in the operand and before the recursion
+	{
+		lit := peg.Lit
+		st := func() *peg.Expr { return peg.StateCode(0) }
+		var lrs []*peg.Grammar
+		for _, base := range []func() *peg.Expr{
+			func() *peg.Expr { return peg.Seq(lit("a"), st()) }, func() *peg.Expr { return peg.Seq(st(), lit("a")) }, func() *peg.Expr { return peg.Ref("T") },
+		} {
+			for _, op := range []func() *peg.Expr{
+				func() *peg.Expr { return peg.Seq(lit("b"), st()) }, func() *peg.Expr { return peg.Seq(st(), lit("b"), peg.Ref("T")) }, func() *peg.Expr { return lit("b") },
+			} {
+				lrs = append(lrs,
+					&peg.Grammar{Rules: []*peg.Rule{{Name: "S", Expr: peg.Action(0, peg.Seq(peg.Label("v", peg.Ref("E")), peg.AndCode(0), peg.Opt(lit("a"))))},
+						{Name: "E", Expr: peg.Choice(peg.Seq(peg.Ref("E"), op()), base())}, {Name: "T", Expr: peg.Seq(lit("a"), st())}}},
+					&peg.Grammar{Rules: []*peg.Rule{{Name: "S", Expr: peg.Action(0, peg.Seq(peg.Star(peg.Seq(peg.Ref("E"), peg.Opt(lit("b")))), peg.AndCode(0)))},
+						{Name: "E", Expr: peg.Choice(peg.Action(0, peg.Seq(peg.Ref("E"), op())), base())}, {Name: "T", Expr: peg.Seq(lit("a"), st())}}},
+				)
+			}
+		}
+		for _, g := range lrs {
+			idx++
+			if !c.Mine(idx) {
+				continue
+			}
+			peg.Renumber(g, 1)
+			peg.AssignArgs(g)
+			fam := &family{gens: []core.Gen{{LeftRec: true}, {LeftRec: true, Optimize: true}}, inputs: peg.Inputs([]string{"a", "b"}, 4), opts: opts,
+				scripts: []map[int]*rtapi.Block{mkScript(g, false), mkScript(g, true)}, nontrivial: nontriv, cmp: core.CmpOpts{EventKey: stateKey, SkipNoMatch: true}, confEvery: 5, confQuota: 1}
+			runGrammar(c, g, fam)
+		}
+	}
 	for size := 1; size <= n; size++ {
 		for _, body := range en.Size(size) {
 			if !(&peg.Grammar{Rules: []*peg.Rule{{Name: "S", Expr: body}}}).Has(peg.KState) {
